@@ -5,6 +5,7 @@ import (
 	"net/http"
 	"net/url"
 	"os"
+	"path/filepath"
 	"strconv"
 	"strings"
 	"syscall"
@@ -118,6 +119,67 @@ func runFailW(a args) error {
 		env.Close()
 		term := fmt.Sprintf("{| fw_status := %d; fw_acked := %v; fw_delivered := %v; fw_stored := %v; fw_others_stored := %v; fw_last_is_previous := %v |}", code, acked, delivered, has(big), has("first") && has("last"), lastAfter == "first")
 		out.Add(term, map[string]any{"id_bytes": size, "status": code, "acknowledged": acked, "delivered_live": delivered, "stored": has(big), "stored_ids_count": len(stored), "last_event_id_after_the_refusal_bytes": len(lastAfter), "last_event_id_is_previous": lastAfter == "first"}, true, fmt.Sprintf("status:%d", code), fmt.Sprintf("id-bytes:%d", size))
+	}
+	// a write transaction that fails during retention cleanup: the oldest key of the bucket is one bbolt refuses to delete
+	// (a nested bucket, sequence number 0), so the transaction that stores the third update and trims the history fails as a
+	// whole and is rolled back - the update of that very transaction included
+	for i := 0; i < (a.n+3)/4; i++ {
+		dir := hx.WorkDir()
+		path := filepath.Join(dir, "trim.db")
+		if err := hx.BoltNestedBucketAtZero(path); err != nil {
+			return err
+		}
+		t, err := mercure.NewBoltTransport(hx.Logger, path, "", 2, 1)
+		if err != nil {
+			return err
+		}
+		env := hx.NewEnvWith("bolt", dir, path, t, mercure.WithAnonymous())
+		live := hx.Subscribe(env.Hub, "/.well-known/mercure?topic=t", nil)
+		live.W.WaitWrites(1, 5*time.Second)
+		for _, id := range []string{"first", "previous"} {
+			if code, _ := hx.Post(env.Hub, url.Values{"topic": {"t"}, "id": {id}, "data": {"1"}}, auth); code != 200 {
+				return fmt.Errorf("publish %s refused: %d", id, code)
+			}
+		}
+		nPub := 1 + i%3 // the failing publish, then possibly more (each of them trims again, and fails again)
+		for j := 0; j < nPub; j++ {
+			id := fmt.Sprintf("second%d", j)
+			code, body := func() (c int, b string) {
+				defer func() {
+					if recover() != nil {
+						c, b = 0, ""
+					}
+				}()
+				return hx.Post(env.Hub, url.Values{"topic": {"t"}, "id": {id}, "data": {"2"}}, auth)
+			}()
+			lastAfter := "?"
+			if ts, ok := env.Transport.(mercure.TransportSubscribers); ok {
+				lastAfter, _, _ = ts.GetSubscribers()
+			}
+			live.W.WaitWrites(live.W.NumWrites()+1, 200*time.Millisecond)
+			delivered := strings.Contains(live.W.Body(), "id: "+id+"\n")
+			stored, err := hx.BoltIDsOfCopy(env.DBPath)
+			if err != nil {
+				return err
+			}
+			has := func(id string) bool {
+				for _, s := range stored {
+					if s == id {
+						return true
+					}
+				}
+				return false
+			}
+			acked := code == 200 && strings.TrimSpace(body) == id
+			prev := "previous"
+			if j > 0 && has(fmt.Sprintf("second%d", j-1)) {
+				prev = fmt.Sprintf("second%d", j-1)
+			}
+			term := fmt.Sprintf("{| fw_status := %d; fw_acked := %v; fw_delivered := %v; fw_stored := %v; fw_others_stored := %v; fw_last_is_previous := %v |}", code, acked, delivered, has(id), has("previous"), lastAfter == prev)
+			out.Add(term, map[string]any{"fault": "history trimming fails (the oldest key is a nested bucket)", "publish_after_the_window_filled": j, "status": code, "acknowledged": acked, "delivered_live": delivered, "stored": has(id), "stored_ids_count": len(stored), "last_event_id_is_previous": lastAfter == prev}, true, fmt.Sprintf("status:%d", code), "fault:trim")
+		}
+		live.Close()
+		env.Close()
 	}
 	return out.Flush()
 }
